@@ -782,6 +782,31 @@ def rule_box(rep, d):
                     t = strip_casts(ir.sx(c))
                     if ir.show(t[1]).endswith("scalbn") and len(t) == 4:
                         exps.append((ir.show(t[3]), c))
+            # Annex G scales the divisor whenever its exponent is finite: the rescaling may depend on isfinite(logbw) only
+            extra = None
+            for e_, c in exps[:2]:
+                p_ = d.parent_of(c)
+                while p_ is not None and p_ is not fn:
+                    if p_.get("kind") == "IfStmt":
+                        ct = strip_casts(ir.sx(ir.ekids(p_)[0]))
+                        atoms = []
+
+                        def flat(x):
+                            if x[0] == "bin" and x[1] in ("&&", "||"):
+                                flat(x[2]); flat(x[3])
+                            else:
+                                atoms.append(x)
+                        flat(ct)
+                        for a_ in atoms:
+                            mentions = any(s_[0] == "ref" and s_[1] in ("logbw", "ilogbw") for s_ in ir.subterms(a_))
+                            isfin = a_[0] == "call" and ir.show(a_[1]).endswith("isfinite")
+                            if mentions and not isfin:
+                                extra = (p_, ir.show(a_))
+                    p_ = d.parent_of(p_)
+            if exps:
+                (rep.violates if extra else rep.holds)("C10.box", label, "divisor rescaled whenever its exponent is finite", where=d.where(extra[0]) if extra else d.where(fn),
+                                                       detail=("the rescaling is additionally conditioned on `%s`: for exponents it excludes the quotient is computed unscaled "
+                                                               "(overflow/underflow of c*c + d*d depends on the value type)" % extra[1]) if extra else "guarded by isfinite(logbw) only")
             okx = bool(exps) and all(e == "-ilogbw" for e, _ in exps) and len(exps) == 4
             (rep.holds if okx else rep.violates)("C10.box", label, "scalbn exponents", where=d.where(fn),
                                                  detail="4 x scalbn(., -ilogbw)" if okx else "expected scalbn(c|d|x|y, -ilogbw) four times; found %s" % [e for e, _ in exps])
@@ -814,6 +839,14 @@ def rule_kinds(rep, tier):
         k += 1
         w.must_compile("inline auto s%d(const xcomplex<double, double, %s>& l, const std::complex<double>& c) { xcomplex<double, double, %s> x(c); std::complex<double> y = l; return x + l; }"
                        % (k, ieee, ieee), "C10.kinds", "std::complex conversion", "compiles", "ieee=" + ieee)
+    # the IEEE (Annex G) mode is contagious: a binary operation with at least one IEEE operand yields an IEEE xcomplex, in either operand order
+    w.raw("template <class T> struct ieee_of; template <class R, class I, bool B> struct ieee_of<xcomplex<R, I, B>> { static constexpr bool value = B; };")
+    for op in ("+", "-", "*", "/"):
+        for a, b in (("true", "false"), ("false", "true"), ("true", "true"), ("false", "false")):
+            for rk in ("double", "double&", "const double&"):
+                want = "true" if "true" in (a, b) else "false"
+                w.must_hold("ieee_of<std::decay_t<decltype(std::declval<const xcomplex<double, double, %s>&>() %s std::declval<const xcomplex<%s, %s, %s>&>())>>::value == %s"
+                            % (a, op, rk, rk, b, want), "C10.kinds", "operator" + op, "IEEE mode of the result", "ieee(%s) %s ieee(%s) [%s]" % (a, op, b, rk))
     w.raw("}")
     for comp, std in ([("clang++", "gnu++17"), ("g++", "gnu++14")] if tier == "quick" else [("clang++", "gnu++14"), ("clang++", "gnu++17"), ("clang++", "gnu++20"), ("g++", "gnu++14"), ("g++", "gnu++17")]):
         w.run(rep, std=std, compiler=comp)
